@@ -215,3 +215,58 @@ for _o in ('zyx', 'xyz', 'yxz'):
             d = np.asarray(X.rpy(order=o, unit='deg'))
             for i in range(2):
                 h.same(f'{cls.__name__}: degrees, column {i}', d[:, i], base.tr2rpy(Rs[i], order=o, unit='deg'))
+
+
+# ----------------------------------------------------------------------------- UnitQuaternion accessors (both members of the double cover)
+
+UQ_RANGES = {'s>0': (0.1, 1.5), 's<0': (1.65, 3.0)}      # half angle hf; the scalar part is cos(hf)
+
+for _ax in ('z', '236'):
+    for _rn, (_lo, _hi) in UQ_RANGES.items():
+        @claim(f'uq-angvec:{_ax}:{_rn}', values=True, split=True)
+        def _(h, ax=_ax, lo=_lo, hi=_hi):
+            """UnitQuaternion.angvec() of q = (cos hf, sin hf * u): the extracted pair rebuilds q's rotation (also when the
+            scalar part is negative), the angle lies in [0, pi], the axis is a unit vector, degrees = radians * 180/pi"""
+            hf = h.angle('hf', lo, hi)
+            s2, c2 = h.sincos(hf)
+            if h.sym:
+                h.sqrt_hint(2 * s2 * c2)        # |sin(2 hf)|: the norm of the antisymmetric part of the rotation matrix
+            u = [Fraction(x) for x in AXES[ax]] if h.sym else [float(Fraction(x)) for x in AXES[ax]]
+            q = h.arr([c2, s2 * u[0], s2 * u[1], s2 * u[2]])
+            Q = UnitQuaternion(q, norm=False, check=False)
+            R = h.arr(q2r_ref(q))
+            theta, v = Q.angvec()
+            h.eq('unit axis', nsq(v), 1, tol=1e-6)
+            h.true('theta >= 0', theta >= 0)
+            h.true('theta <= pi', theta <= math.pi * (1 + 1e-12))
+            h.eq('rebuild', base.angvec2r(theta, v), R, tol=1e-6)
+            td, vd = Q.angvec(unit='deg')
+            h.eq('degrees', td, theta * (180 / math.pi), tol=1e-9, scale=180)
+            h.eq('same axis in degrees', vd, v, tol=1e-9)
+
+
+def _uq(h):
+    q = unit_quat(h, 'q')
+    return q, UnitQuaternion(q, norm=False, check=False)
+
+
+for _o in ('zyx', 'xyz', 'yxz'):
+    for _u in ('rad', 'deg'):
+        @claim(f'uq-rpy:{_o}:{_u}')
+        def _(h, o=_o, u=_u):
+            """UnitQuaternion.rpy is the base extraction applied to the quaternion's own rotation matrix, for every order and
+            unit (the extraction itself is the subject of rpy-roundtrip)"""
+            q, Q = _uq(h)
+            h.same(f'rpy {o} {u}', Q.rpy(order=o, unit=u), base.tr2rpy(Q.R, order=o, unit=u))
+
+for _u in ('rad', 'deg'):
+    @claim(f'uq-eul:{_u}')
+    def _(h, u=_u):
+        q, Q = _uq(h)
+        h.same(f'eul {u}', Q.eul(unit=u), base.tr2eul(Q.R, unit=u))
+
+
+@claim('uq-R')
+def _(h):
+    q, Q = _uq(h)
+    h.eq('R is the rotation of q', Q.R, q2r_ref(q), tol=1e-12)
